@@ -603,8 +603,11 @@ impl<W: Write> RdbWriter<W> {
                 );
                 
                 let entries = &range_result.entries;
+                // The last id ever added outlives the entries (XDEL, XTRIM): it is written behind them as
+                // a record "L<id>" without fields, which a loader that does not know it skips
+                let last_id = stream.last_id();
                 // Calculate total number of items to write
-                let mut total_items = 0;
+                let mut total_items = 2;
                 for entry in entries {
                     total_items += 2; // ID string + field count string
                     total_items += entry.fields.len() * 2; // field-value pairs
@@ -627,6 +630,8 @@ impl<W: Write> RdbWriter<W> {
                         self.write_string(value)?;
                     }
                 }
+                self.write_string(format!("L{}", last_id).as_bytes())?;
+                self.write_string(b"0")?;
             }
             Value::List(list) => {
                 self.write_byte(RdbOpcode::List as u8)?;
@@ -929,6 +934,19 @@ impl<R: Read> RdbReader<R> {
                         let value = self.read_string()?;
                         fields.insert(field, value);
                         entry_idx += 2;
+                    }
+                    
+                    // The record "L<id>" restores the last id ever added: an entry with that id is added and
+                    // deleted again, which leaves the stream's last id there
+                    if id_str.first() == Some(&b'L') {
+                        if let Some(last_id) = crate::storage::stream::StreamId::from_string(
+                            std::str::from_utf8(&id_str[1..]).unwrap_or("")
+                        ) {
+                            if storage.xadd_with_id(db, key.clone(), last_id.clone(), HashMap::new()).is_ok() {
+                                let _ = storage.xdel(db, &key, vec![last_id]);
+                            }
+                        }
+                        continue;
                     }
                     
                     // Parse stream ID and add entry to stream
